@@ -30,12 +30,14 @@ def cfgOfJ (j : J) : Cfg :=
     generateSelector := j.getBool "generateSelector",
     parentSelector := selectorOfJ (j.opt "parentSelector"),
     finalize := j.getBool "finalize", customize := j.getBool "customize", ssa := j.getBool "ssa",
-    fieldPaths := (j.getD "fieldPaths").strList, related := (j.getArr "related").map childResOfJ }
+    fieldPaths := (j.getD "fieldPaths").strList, related := (j.getArr "related").map childResOfJ,
+    ignoreStatusChanges := j.getBool "ignoreStatusChanges" }
 
 def parentResOfJ (j : J) : ParentRes :=
   { apiVersion := j.getStr "apiVersion", resource := j.getStr "resource", kind := j.getStr "kind",
     namespaced := j.getBool "namespaced", hasStatus := j.getBool "hasStatus",
-    labelSel := selectorOfJ (j.opt "labelSelector"), annSel := selectorOfJ (j.opt "annotationSelector") }
+    labelSel := selectorOfJ (j.opt "labelSelector"), annSel := selectorOfJ (j.opt "annotationSelector"),
+    ignoreStatusChanges := j.getBool "ignoreStatusChanges" }
 
 def dcfgOfJ (j : J) : DCfg :=
   { name := j.getStr "name", resources := (j.getArr "resources").map parentResOfJ,
